@@ -173,6 +173,37 @@ theorem task_shuffle_sound (parts : List (List Row)) (nOut k S : Nat) (hk : 0 < 
       subst hout
       simpa using (List.mem_filter.mp hr).2
 
+/-- **staged shuffle, frame level (completeness)**: with an unchanged number of partitions every input row whose
+    target is a valid partition number is found in the output partition with that number (no row is lost). -/
+theorem task_shuffle_complete (parts : List (List Row)) (k S : Nat) (hk : 0 < k) (hkS : parts.length ≤ k ^ S)
+    (htarget : ∀ rows ∈ parts, ∀ r ∈ rows, r.1 < parts.length)
+    (rows : List Row) (hrows : rows ∈ parts) (r : Row) (hr : r ∈ rows) :
+    ∃ out, (taskShuffle parts parts.length k S)[r.1]? = some out ∧ r ∈ out := by
+  obtain ⟨q, hq⟩ := List.mem_iff_getElem?.mp hrows
+  have hqlt : q < parts.length := (List.getElem?_eq_some_iff.mp hq).1
+  obtain ⟨q', rows', hq', hrows', hr'⟩ := staged_complete k S parts.length hk parts r S (Nat.le_refl _)
+    ⟨q, rows, by omega, hq, hr⟩
+  have hinv := staged_inv_all (fun r => r.1 < parts.length) k S parts.length hk parts htarget S (Nat.le_refl _)
+  obtain ⟨hrlt, hdig⟩ := hinv q' rows' hrows' r hr'
+  have hde := digits_ext k S q' (r.1 % parts.length) hdig
+  have hrt : r.1 % parts.length < k ^ S := Nat.lt_of_lt_of_le (Nat.mod_lt _ (by omega)) hkS
+  have h1 := fromDigits_digits k S q' hq'
+  rw [hde, fromDigits_digits k S _ hrt, Nat.mod_eq_of_lt hrlt] at h1
+  subst h1
+  refine ⟨rows', ?_, hr'⟩
+  unfold taskShuffle
+  simp only [if_true]
+  rw [List.getElem?_take, if_pos hrlt]
+  exact hrows'
+
+
+/-- **colocated** (frame level): rows with the same key (hence the same target) end in the same output partition -/
+theorem task_shuffle_colocated (parts : List (List Row)) (nOut k S : Nat) (hk : 0 < k) (hkS : parts.length ≤ k ^ S)
+    (htarget : ∀ rows ∈ parts, ∀ r ∈ rows, r.1 < nOut) (p₁ p₂ : Nat) (o₁ o₂ : List Row)
+    (h₁ : (taskShuffle parts nOut k S)[p₁]? = some o₁) (h₂ : (taskShuffle parts nOut k S)[p₂]? = some o₂)
+    (r₁ r₂ : Row) (hr₁ : r₁ ∈ o₁) (hr₂ : r₂ ∈ o₂) (hsame : r₁.1 = r₂.1) : p₁ = p₂ := by
+  rw [← task_shuffle_sound parts nOut k S hk hkS htarget p₁ o₁ h₁ r₁ hr₁,
+    ← task_shuffle_sound parts nOut k S hk hkS htarget p₂ o₂ h₂ r₂ hr₂, hsame]
 
 /-! ### non-vacuity / concrete behaviour -/
 example : routeTuple 3 3 11 (digits 5 3 3) = digits 11 3 3 := by decide
